@@ -874,6 +874,94 @@ impl Space for SecondSessionLattice {
     }
 }
 
+/// Corpus files in a SECOND session: loaded eagerly, every sheet in turn gets one more object that needs a
+/// relationship of its own (a table, a comment, an external link) next to whatever the file already carries on that
+/// sheet (drawings, OLE objects, controls, printer settings ...); the saved package must be valid (relationship ids and
+/// types, part names, content types) and decode to the model.
+struct CorpusSecondSession {
+    files: Vec<String>,
+    big: bool,
+}
+const CSS_ADDS: [&str; 3] = ["table", "comment", "ext-link"];
+impl Space for CorpusSecondSession {
+    fn len(&self) -> u64 {
+        self.files.len() as u64 * CSS_ADDS.len() as u64
+    }
+    fn describe(&self, i: u64) -> Value {
+        json!({"kind":"corpus-second-session","file": self.files[(i / 3) as usize].rsplit('/').next(), "added_to_every_sheet": CSS_ADDS[(i % 3) as usize], "light": (i / 3) % 2 == 1})
+    }
+    fn tags(&self, i: u64) -> Vec<String> {
+        vec![format!("corpus:{}", self.files[(i / 3) as usize].rsplit('/').next().unwrap_or("")), "second-session".into(), format!("added:{}", CSS_ADDS[(i % 3) as usize])]
+    }
+    fn run(&self, i: u64, sink: &mut Sink) {
+        let path = &self.files[(i / 3) as usize];
+        let add = CSS_ADDS[(i % 3) as usize];
+        let light = (i / 3) % 2 == 1;
+        let tl = self.tags(i);
+        let tags: Vec<&str> = tl.iter().map(|x| x.as_str()).collect();
+        let case = self.describe(i);
+        let data = match std::fs::read(path) {
+            Ok(d) => d,
+            Err(_) => return,
+        };
+        if !self.big && data.len() > 900_000 {
+            sink.count("corpus_skipped_big_in_quick", 1);
+            return;
+        }
+        let mut b = match load_bytes(&data, true) {
+            Ok(b) => b,
+            Err(_) => {
+                sink.count("corpus_unreadable", 1);
+                return;
+            }
+        };
+        let r = std::panic::catch_unwind(std::panic::AssertUnwindSafe(|| {
+            for idx in 0..b.get_sheet_count() {
+                let ws = b.get_sheet_mut(&idx).unwrap();
+                let (hc, hr) = ws.get_highest_column_and_row();
+                if hc >= 16000 || hr >= 1_000_000 {
+                    continue;
+                }
+                let (c0, r0) = (hc + 2, hr + 2);
+                match add {
+                    "table" => {
+                        ws.get_cell_mut((c0, r0)).set_value_string("Col A");
+                        ws.get_cell_mut((c0 + 1, r0)).set_value_string("Col B");
+                        ws.get_cell_mut((c0, r0 + 1)).set_value_number(1);
+                        ws.get_cell_mut((c0 + 1, r0 + 1)).set_value_number(2);
+                        let mut t = Table::new(&format!("LaterTable{}", idx + 1), ((c0, r0), (c0 + 1, r0 + 1)));
+                        t.add_column(TableColumn::new("Col A"));
+                        t.add_column(TableColumn::new("Col B"));
+                        ws.add_table(t);
+                    }
+                    "comment" => {
+                        let mut c = Comment::default();
+                        c.new_comment((c0, r0));
+                        c.set_author("second session");
+                        c.set_text_string("added in a second session");
+                        ws.add_comments(c);
+                    }
+                    _ => {
+                        let cell = ws.get_cell_mut((c0, r0));
+                        cell.set_value_string("link");
+                        let mut h = Hyperlink::default();
+                        h.set_url("https://example.com/second-session?x=1&y=2");
+                        cell.set_hyperlink(h);
+                    }
+                }
+            }
+        }));
+        if let Err(e) = r {
+            sink.violations.push(Violation::new("save-succeeds", &format!("edit-panicked:{}", panic_class(&panic_msg(&e))), &tags, case, panic_msg(&e)));
+            return;
+        }
+        let inherited: Vec<String> = with_py(|py| py.validate_decode(&data, false)).0.into_iter().map(|(class, part, _)| format!("{}:{}", class, part_family(&part))).collect();
+        if let Some(bytes) = check_package_against(&b, &b, light, &tags, &case, sink, "", &inherited) {
+            sink.hashes.push(fnv(&strip_volatile(&bytes)));
+        }
+    }
+}
+
 pub fn space(tier: Tier, id: &str) -> Option<Box<dyn Space>> {
     match id {
         "lattice" => Some(Box::new(Lattice { subsets: subsets(tier) })),
@@ -895,6 +983,7 @@ pub fn space(tier: Tier, id: &str) -> Option<Box<dyn Space>> {
             }
             Some(Box::new(SecondSessionLattice { cases }))
         }
+        "corpus-second-session" => Some(Box::new(CorpusSecondSession { files: corpus_files(), big: tier == Tier::Thorough })),
         "lazy-corpus" => Some(Box::new(LazyCorpus { files: corpus_files(), big: tier == Tier::Thorough })),
         _ => None,
     }
@@ -905,7 +994,7 @@ fn replay(tier: Tier, case: &Value) -> Vec<Violation> {
 }
 
 fn run(ctx: &Ctx) -> i32 {
-    let ids = ["lattice", "channels", "corpus", "lazy-corpus", "second-session"];
+    let ids = ["lattice", "channels", "corpus", "lazy-corpus", "second-session", "corpus-second-session"];
     let spaces = ids.iter().map(|id| (*id, space(ctx.tier, id).unwrap())).collect();
     let nsub = subsets(ctx.tier).len();
     run_e1(
@@ -914,7 +1003,7 @@ fn run(ctx: &Ctx) -> i32 {
             spaces,
             cfg: PoolCfg { chunk: 8, case_timeout: std::time::Duration::from_secs(120), ..Default::default() },
             level: "exploration",
-            rule: "every workbook of (i) the feature-subset lattice over 11 annotation/structure features x {standard, light writer} x {macro payload, none}, (ii) every escape channel x applicable special string x both writers, (iii) every corpus file loaded and re-saved by both writers, (v) every lattice workbook with at most 1 (thorough: 2) features saved and reloaded, then given one more feature on its first and last sheet, (iv) every corpus file opened lazily, its first or last sheet materialised and given a text cell with an external link while the other sheets stay unloaded (model = an eagerly loaded twin with the same edit), is written to memory and handed to the independent Python validator+decoder; oracle = no validity problem and decoded cells/formulas/hyperlinks/merges/defined names/sheet list equal the pre-save model dump. distinct_nontrivial = distinct (part list, part sizes[, channel, text]) signatures of the produced packages".into(),
+            rule: "every workbook of (i) the feature-subset lattice over 11 annotation/structure features x {standard, light writer} x {macro payload, none}, (ii) every escape channel x applicable special string x both writers, (iii) every corpus file loaded and re-saved by both writers, (v) every lattice workbook with at most 1 (thorough: 2) features saved and reloaded, then given one more feature on its first and last sheet, (vi) every corpus file loaded eagerly and given, on every sheet, one more object with a relationship of its own (table / comment / external link), (iv) every corpus file opened lazily, its first or last sheet materialised and given a text cell with an external link while the other sheets stay unloaded (model = an eagerly loaded twin with the same edit), is written to memory and handed to the independent Python validator+decoder; oracle = no validity problem and decoded cells/formulas/hyperlinks/merges/defined names/sheet list equal the pre-save model dump. distinct_nontrivial = distinct (part list, part sizes[, channel, text]) signatures of the produced packages".into(),
             alphabets: json!({"features": FEATURES, "subsets": nsub, "writers": 2, "macro": 2, "channels": CHANNELS, "specials": SPECIALS.iter().map(|s| s.0).collect::<Vec<_>>(), "channel_cases": channel_cases().len(), "corpus_files": corpus_files().len()}),
             bounds: json!({"lattice": if ctx.tier == Tier::Quick {"subsets of size <=2 and complements of size <=1 (cut of the 2^11 lattice, stated as a bound)"} else {"all 2^11 subsets"}, "corpus": if ctx.tier == Tier::Quick {"files <= 600 kB"} else {"all files"}}),
             exhaustive: true,
